@@ -6,6 +6,8 @@ module-global log; calls made while the graph is built (meta / dtype inference) 
 compute starts.  Kinds of cases (all literals):
   ("mb",  shape, chunks, args, sig, mode)      map_blocks, 1-3 inputs from {x, same, row, col, one, zero, row1, other, lit}
   ("mbs", shape, chunks, variant, sig)         map_blocks with drop_axis / new_axis / chunks on one input
+  ("mbd", shape, chunks, args, axis, sig)      map_blocks with drop_axis over 2-3 inputs of DIFFERENT ndim (lower-rank partners stay
+                                               aligned or get concatenated depending on which labelled axis is dropped)
   ("mbz", n, chunks, sig)                      map_blocks on 1-d arrays with EMPTY chunks
   ("mb0", shape, chunks, sig)                  map_blocks without array arguments: blocks synthesised from block_info / block_id
   ("bw",  pattern, chunks_per_arg, concatenate, align)   blockwise index patterns
@@ -59,6 +61,11 @@ def _apply(mode, blocks):
         return out
     if kind == "sum":
         return np.asarray(b).sum(axis=tuple(mode[1]))
+    if kind == "sumb":
+        out = 0
+        for k, blk in enumerate(blocks):
+            out = out + (1000**k) * np.asarray(blk)
+        return np.asarray(out).sum(axis=mode[1])
     if kind in ("expand", "left"):
         k, m = (mode[1], mode[2]) if kind == "expand" else (0, mode[1])
         return np.repeat(np.expand_dims(b, k), m, axis=k)
@@ -177,6 +184,19 @@ def bw_func(*blocks, pat=None):
         return np.array(blocks[0][:, :1])
     if pat == "lit":
         return blocks[0] + blocks[1]
+    if pat in ("rowdot1", "inner1"):
+        a, b = blocks
+        ax = 1 if pat == "rowdot1" else 0
+        if isinstance(a, list) or isinstance(b, list):
+            a = a if isinstance(a, list) else [a]
+            b = b if isinstance(b, list) else [b]
+            out = 0
+            for p, q in zip(a, b, strict=True):
+                out = out + (np.asarray(p) * np.asarray(q)).sum(axis=ax)
+            return out
+        return (np.asarray(a) * np.asarray(b)).sum(axis=ax)
+    if pat == "addcol1":
+        return blocks[0] + 1000 * blocks[1]
     if pat == "T3":
         return np.array(blocks[0]).transpose(2, 1, 0)
     if pat == "sum2":
@@ -212,8 +232,18 @@ PATTERNS = {
     "T3": ("kji", ("ijk",)),
     "sum2": ("i", ("ijk",)),
     "keepj": ("ijk", ("ij", "jk")),
+    "rowdot1": ("i", ("ij", "ij")),
+    "inner1": ("", ("i", "i")),
+    "addcol1": ("ij", ("ij", "ij")),
 }
-CONTRACTING = ("rowsum", "colsum", "dot", "inner", "sum2")
+CONTRACTING = ("rowsum", "colsum", "dot", "inner", "sum2", "rowdot1", "inner1")
+# pattern -> {argument position: letters along which that argument has extent 1 (one block, broadcast against the others)}
+SIZE1 = {"rowdot1": {1: "j"}, "inner1": {1: "i"}, "addcol1": {1: "j"}}
+
+
+def arg_shape(pat, k, ind, sizes):
+    one = SIZE1.get(pat, {}).get(k, "")
+    return tuple(1 if c in one else sizes[c] for c in ind)
 
 
 def bw_reference(pat, datas):
@@ -246,6 +276,12 @@ def bw_reference(pat, datas):
         return x[:, None] * np.ones((1, 4), dtype=np.int64)
     if pat == "lit":
         return x + 5
+    if pat == "rowdot1":
+        return (x * datas[1]).sum(axis=1)
+    if pat == "inner1":
+        return (x * datas[1]).sum()
+    if pat == "addcol1":
+        return x + 1000 * datas[1]
     if pat == "T3":
         return x.transpose(2, 1, 0)
     if pat == "sum2":
@@ -364,6 +400,9 @@ ARGLISTS = (
     ("x", "other", "row1"),
 )
 COMBINABLE = {"x", "same", "row", "col", "one", "zero", "lit"}
+# drop_axis with inputs of different rank: which labelled axis a lower-rank partner loses depends on the alignment, not on its own position
+MBD_ARGLISTS = (("x", "row"), ("row", "x"), ("x", "col"), ("x", "same"), ("x", "zero"), ("x", "row", "col"), ("col", "row", "x"))
+MBD_SHAPES = {"quick": ((2, 3), (3, 2), (3, 4), (2, 2, 2)), "thorough": ((2, 3), (3, 2), (3, 4), (4, 3), (2, 2, 2), (2, 3, 2), (4, 4))}
 
 
 def RULE(tier):
@@ -371,9 +410,10 @@ def RULE(tier):
         f"map_blocks: base shapes {MB_SHAPES[tier]} x EVERY chunking x {len(ARGLISTS)} argument lists (1-3 inputs: full array, same-chunked twin, "
         "trailing-axis 1-d, size-1 column, all-ones shape, 0-d, single-block and differently-shaped same-numblocks partners, python literal; both "
         "orders) x probe signature {plain, block_id, block_info, both} x return mode; one-input structure variants: every drop_axis subset, every "
-        "new_axis position with and without chunks=, drop+new, left-inferred new axis, chunks= as int / tuple (head), doubled chunks; 1-d arrays "
+        "new_axis position with and without chunks=, drop+new, left-inferred new axis, chunks= as int / tuple (head), doubled chunks; drop_axis (every axis) over "
+        f"{len(MBD_ARGLISTS)} argument lists mixing ranks (trailing-axis 1-d, size-1 column, 0-d, twin; both orders) on {MBD_SHAPES[tier]}; 1-d arrays "
         f"with empty chunks (n <= {MBZ_N[tier]}, <= 4 parts); no-array map_blocks synthesising every block from block_info/block_id for shapes "
-        f"{MB0_SHAPES[tier]}. blockwise: {len(PATTERNS)} index patterns (identity, 2-d/3-d transpose, x+y.T, outer, broadcast row, "
+        f"{MB0_SHAPES[tier]}. blockwise: {len(PATTERNS)} index patterns (identity, 2-d/3-d transpose, x+y.T, outer, broadcast row, extent-1 partners along a kept and along a contracted index, "
         "3 inputs, 3-d result keeping a shared index, contractions of one and of two indices with concatenate True/None, matmul, full contraction, repeated index 'ii', new_axes int/tuple, adjust_chunks "
         f"callable/tuple/int, literal) over sizes {BW_SIZES[tier]} with EVERY chunking of every argument (align_arrays=True: all combinations; False: "
         f"matching block counts). apply_gufunc: {len(GU_QUICK if tier == 'quick' else GU_THOROUGH)} signatures x every chunking of every input x vectorize x "
@@ -422,7 +462,7 @@ def gu_extras(name):
 
 
 def groups(tier):
-    g = [("mb", shape) for shape in MB_SHAPES[tier]] + [("mbs", shape) for shape in MBS_SHAPES[tier]] + [("mbz",)] + [("mb0",)]
+    g = [("mb", shape) for shape in MB_SHAPES[tier]] + [("mbs", shape) for shape in MBS_SHAPES[tier]] + [("mbd", shape) for shape in MBD_SHAPES[tier]] + [("mbz",)] + [("mb0",)]
     g += [("bw", pat) for pat in PATTERNS]
     g += [("gu", name) for name in (GU_QUICK if tier == "quick" else GU_THOROUGH)]
     return g
@@ -450,6 +490,13 @@ def group_cases(group, tier):
             for v in mbs_variants(len(shape)):
                 for sig in ("none", "both"):
                     yield ("mbs", shape, ch, v, sig)
+    elif kind == "mbd":
+        shape = group[1]
+        for ch in enums.chunkings(shape):
+            for args in MBD_ARGLISTS:
+                for a in range(len(shape)):
+                    for sig in ("none", "info", "both"):
+                        yield ("mbd", shape, ch, args, a, sig)
     elif kind == "mbz":
         for n in range(0, MBZ_N[tier] + 1):
             for ch in enums.compositions_with_zeros(n, 4):
@@ -475,13 +522,15 @@ def group_cases(group, tier):
                     if ch[0] == ch[1]:
                         yield ("bw", pat, (ch,), None, False)
             return
-        per_arg = [list(enums.chunkings(tuple(sizes[c] for c in ind))) for ind in arr_inds]
+        per_arg = [list(enums.chunkings(arg_shape(pat, k, ind, sizes))) for k, ind in enumerate(arr_inds)]
         concs = (True, None) if pat in CONTRACTING else (None,)
         for chs in itertools.product(*per_arg):
             # same letter, same chunking everywhere -> align_arrays=False is legal as well
             seen, consistent = {}, True
             for ind, ch in zip(arr_inds, chs):
                 for c, cc in zip(ind, ch):
+                    if cc == (1,) and sizes[c] != 1:
+                        continue  # extent-1 axis: one block, broadcast
                     if seen.setdefault(c, cc) != cc:
                         consistent = False
             for conc in concs:
@@ -834,6 +883,68 @@ def run_mbs(case, ctx):
     return (r.chunks, len(log))
 
 
+def run_mbd(case, ctx):
+    import dask.array as da
+
+    _, shape, ch, args, a, sig = case
+    nd = len(shape)
+    built = [build_arg(k_, shape, ch, ctx.seed, k) for k, k_ in enumerate(args)]
+    dargs = [da.from_array(d, chunks=c) for d, c in built]
+    out_chunks = tuple(c for ax, c in enumerate(ch) if ax != a)
+    out_shape = tuple(n for ax, n in enumerate(shape) if ax != a)
+    kwargs = {"drop_axis": a, "mode": ("sumb", a)}
+    if args[0] != "x":
+        kwargs["chunks"] = out_chunks
+    LOG.clear()
+    r = da.map_blocks(PROBES[sig], *dargs, **kwargs)
+    LOG.clear()
+    got, prob = arr.compute_blocks(r)
+    log = list(LOG)
+    if prob:
+        raise Bad("lazy-metadata", prob)
+    if tuple(tuple(c) for c in r.chunks) != out_chunks:
+        raise Bad("out-chunks", f"output chunks {r.chunks} != {out_chunks}")
+    want = 0
+    for k, (d, _) in enumerate(built):
+        want = want + (1000**k) * np.asarray(d)
+    want = np.asarray(want).sum(axis=a)
+    why = arr.equal(got, want)
+    if why:
+        raise Bad("wrong-value", why)
+    Gs = []
+    for blocks, bid, binfo in log:
+        if len(blocks) != len(args):
+            raise Bad("wrong-arity", f"function called with {len(blocks)} blocks for {len(args)} arguments")
+        per_dim = [set() for _ in range(nd)]
+        located = []
+        for k, ((d, c), blk) in enumerate(zip(built, blocks)):
+            off = nd - d.ndim
+            dropped = tuple(ax for ax in range(d.ndim) if ax + off == a)  # the argument's own axis carrying the dropped label
+            sl = locate(blk, d)
+            for ax in dropped:
+                if sl[ax] != (0, d.shape[ax]):
+                    raise Bad("dropped-axis-not-whole", f"input {k} ({args[k]}): block {sl} does not span the dropped axis")
+            idx = block_index(sl, c, whole_ok=dropped)
+            located.append((sl, idx, dropped))
+            for ax in range(d.ndim):
+                if ax not in dropped and len(c[ax]) > 1:
+                    per_dim[off + ax].add(idx[ax])
+        if any(len(st) > 1 for st in per_dim):
+            raise Bad("misaligned", f"blocks of one call come from different block positions: {[l[1] for l in located]}")
+        G = tuple(next(iter(st)) if st else 0 for ax, st in enumerate(per_dim) if ax != a)
+        Gs.append(G)
+        if sig == "both" and (bid is None or tuple(bid) != G):
+            raise Bad("block_id", f"block_id {bid} but the blocks come from output position {G}")
+        if sig in ("info", "both"):
+            if not isinstance(binfo, dict):
+                raise Bad("block_info:missing", f"block_info is {binfo!r}")
+            for k, ((d, c), (sl, idx, dropped)) in enumerate(zip(built, located)):
+                check_info_entry(binfo.get(k), d, c, sl, idx, f"input {k} ({args[k]})", skip_axes=dropped)
+            check_out_entry(binfo.get(None), out_shape, out_chunks, G, got.dtype)
+    grid_check(Gs, out_chunks)
+    return (r.chunks, len(log))
+
+
 def run_mbz(case, ctx):
     import dask.array as da
 
@@ -935,7 +1046,7 @@ def run_bw(case, ctx):
     sizes = {}
     for ind, data in zip(arr_inds, datas):
         for c, n in zip(ind, data.shape):
-            sizes[c] = n
+            sizes[c] = max(sizes.get(c, 0), n)
     contracted = sorted(set("".join(arr_inds)) - set(out_ind))
     out_keys = []
     for blocks, _, _ in log:
@@ -943,17 +1054,22 @@ def run_bw(case, ctx):
         per_letter = {}
         lists = {}
         for k, (ind, data, blk) in enumerate(zip(arr_inds, datas, blocks)):
+            # extent-1 axes of this argument are broadcast against the other arguments: always block (0, 1)
+            bc = tuple(data.shape[pos] == 1 and sizes[c] != 1 for pos, c in enumerate(ind))
             if isinstance(blk, list):
                 cl = tuple(c for c in ind if c in contracted)
                 seq = []
-                kept_seen = {c: set() for c in ind if c not in contracted}
+                kept_seen = {c: set() for pos, c in enumerate(ind) if c not in contracted and not bc[pos]}
                 for piece in flat(blk):
                     sl = locate(piece, data)
                     if sl is None:
                         raise Bad("garbled-block", "empty piece in a block list")
-                    seq.append(tuple(iv for c, iv in zip(ind, sl) if c in contracted))
-                    for c, iv in zip(ind, sl):
-                        if c not in contracted:
+                    seq.append(tuple(None if bc[pos] else iv for pos, (c, iv) in enumerate(zip(ind, sl)) if c in contracted))
+                    for pos, (c, iv) in enumerate(zip(ind, sl)):
+                        if bc[pos]:
+                            if iv != (0, 1):
+                                raise Bad("misaligned", f"argument {k}: broadcast axis {c!r} shows {iv}")
+                        elif c not in contracted:
                             kept_seen[c].add(iv)
                 lists.setdefault(cl, []).append(seq)
                 for c, seen in kept_seen.items():
@@ -962,8 +1078,11 @@ def run_bw(case, ctx):
                     per_letter.setdefault(c, set()).add(next(iter(seen)))
             else:
                 sl = locate(blk, data)
-                for c, iv in zip(ind, sl):
-                    if c in contracted:
+                for pos, (c, iv) in enumerate(zip(ind, sl)):
+                    if bc[pos]:
+                        if iv != (0, 1):
+                            raise Bad("misaligned", f"argument {k}: broadcast axis {c!r} shows {iv}")
+                    elif c in contracted:
                         if iv != (0, sizes[c]):
                             raise Bad("contraction-not-whole", f"argument {k}: contracted index {c!r} covers {iv}, not the whole axis (concatenate={conc})")
                     else:
@@ -972,17 +1091,26 @@ def run_bw(case, ctx):
             if len(st) != 1:
                 raise Bad("misaligned", f"index {c!r} has different positions in the blocks of one call: {sorted(st)}")
         for cl, seqs in lists.items():
-            if any(q != seqs[0] for q in seqs[1:]):
-                raise Bad("misaligned", f"contracted indices {cl}: block lists of the arguments do not pair up: {seqs}")
-            seq = seqs[0]
-            ok = len(set(seq)) == len(seq)
-            total = 1
-            for pos, c in enumerate(cl):
-                ivs = sorted({t[pos] for t in seq})
-                total *= len(ivs)
-                ok = ok and bool(ivs) and ivs[0][0] == 0 and ivs[-1][1] == sizes[c] and all(p[1] == q[0] for p, q in zip(ivs, ivs[1:]))
-            if not ok or total != len(seq):
-                raise Bad("contraction-not-whole", f"contracted indices {cl}: the blocks {seq} do not tile the contracted axes exactly once")
+            if len({len(q) for q in seqs}) != 1:
+                raise Bad("list-length", f"contracted indices {cl}: the arguments got block lists of different lengths {[len(q) for q in seqs]}")
+            for q in seqs[1:]:
+                for t0, t1 in zip(seqs[0], q):
+                    if any(u is not None and v is not None and u != v for u, v in zip(t0, t1)):
+                        raise Bad("misaligned", f"contracted indices {cl}: block lists of the arguments do not pair up: {seqs}")
+            for seq in seqs:
+                live = [pos for pos in range(len(cl)) if seq and seq[0][pos] is not None]
+                if not live:
+                    continue
+                rseq = [tuple(t[pos] for pos in live) for t in seq]
+                ok = len(live) < len(cl) or len(set(rseq)) == len(rseq)
+                total = 1
+                for j, pos in enumerate(live):
+                    c = cl[pos]
+                    ivs = sorted({t[j] for t in rseq})
+                    total *= len(ivs)
+                    ok = ok and bool(ivs) and ivs[0][0] == 0 and ivs[-1][1] == sizes[c] and all(p[1] == q[0] for p, q in zip(ivs, ivs[1:]))
+                if not ok or total != len(set(rseq)):
+                    raise Bad("contraction-not-whole", f"contracted indices {cl}: the blocks {seq} do not tile the contracted axes exactly once")
         out_keys.append(tuple(next(iter(per_letter[c])) for c in out_ind if c in per_letter))
     # one call per output block; the kept-letter intervals must form exactly the declared output grid
     kept = [c for c in out_ind if c in sizes]
@@ -1113,12 +1241,12 @@ def run_mb0(case, ctx):
     return (r.chunks, len(log))
 
 
-RUNNERS = {"mb": run_mb, "mbs": run_mbs, "mbz": run_mbz, "mb0": run_mb0, "bw": run_bw, "gu": run_gu}
+RUNNERS = {"mb": run_mb, "mbs": run_mbs, "mbd": run_mbd, "mbz": run_mbz, "mb0": run_mb0, "bw": run_bw, "gu": run_gu}
 
 
 def nontrivial_of(case):
     kind = case[0]
-    if kind in ("mb", "mbs", "mb0"):
+    if kind in ("mb", "mbs", "mbd", "mb0"):
         return any(len(c) >= 2 for c in case[2])
     if kind == "mbz":
         return len(case[2]) >= 2
